@@ -585,6 +585,12 @@ func VerifyNODATAForZoneWithWork(
 		if q.Qtype == dns.TypeDS && typesSet(types, dns.TypeSOA) {
 			return false, ErrNSECBadDelegation
 		}
+		// The converse, as in VerifyNODATANSEC: the record matching a
+		// delegation point (NS set, SOA clear) is the parent's and denies
+		// DS only (RFC 6840 §4.1).
+		if q.Qtype != dns.TypeDS && typesSet(types, dns.TypeNS) && !typesSet(types, dns.TypeSOA) {
+			return false, ErrNSECBadDelegation
+		}
 		return true, nil
 	} else if err != ErrNSECMissingCoverage {
 		return false, err
